@@ -88,7 +88,8 @@ def run(
     if not module.exists() or not cfg.exists():
         raise TLCError(f"missing spec or cfg: {module} {cfg}")
     work = Path(tempfile.mkdtemp(prefix="tlc_", dir=os.environ.get("VERIF_WORK")))
-    cmd = ["java", "-XX:+UseParallelGC", f"-Xmx{heap}", f"-DTLA-Library={LIBPATH}"]
+    # -Xss64m: deep LET/recursive-operator evaluation of the judges overflowed the default thread stack (StackOverflowError, rc=255)
+    cmd = ["java", "-XX:+UseParallelGC", f"-Xmx{heap}", "-Xss64m", f"-DTLA-Library={LIBPATH}"]
     for k, v in (extra_props or {}).items():
         cmd.append(f"-D{k}={v}")
     cmd += ["-cp", CP, "tlc2.TLC", "-workers", str(workers), "-metadir", str(work / "meta"),
